@@ -118,6 +118,10 @@ func (e *cellEnc) rawRange(L *lua.LState, from, to int) []string {
 
 func (e *cellEnc) dump(L *lua.LState) (int, []string) {
 	n := L.GetTop()
+	if n < 0 {
+		// a negative GetTop: the state is corrupt (the current frame's base is above the registry top)
+		return n, []string{"(Some (VRef 666))"}
+	}
 	cells := make([]string, n)
 	for i := 1; i <= n; i++ {
 		cells[i-1] = e.cell(L.Get(i))
@@ -871,4 +875,116 @@ func genCopyRet(r *lib.Rand) CopyRetIn {
 		in.Regv = in.Start + r.Range(1, 2) // towards higher registers: outside the return contract, exact in the impl model
 	}
 	return in
+}
+
+/* ---------- calls made on a coroutine.create thread that nobody has resumed yet (hunt2 C10 obs-1) ---------- */
+
+type ThreadCallIn struct {
+	Kind    string `json:"kind"` // "threadcall"
+	Via     string `json:"via"`  // callbyparam | call | pcall
+	LuaFn   bool   `json:"luafn"`
+	NRet    int    `json:"nret"`
+	Protect bool   `json:"protect"`
+	Fails   bool   `json:"fails"`
+}
+
+func runThreadCall(w *lib.Writer, in ThreadCallIn, class string) {
+	L := lua.NewState()
+	defer L.Close()
+	e := newCellEnc()
+	if err := L.DoString(`co = coroutine.create(function(...) return select('#', ...), ... end)
+	function helper(x) if FAIL then error("helper failed") end return x + 1, x + 2 end`); err != nil {
+		panic(err)
+	}
+	if in.Fails {
+		L.SetGlobal("FAIL", lua.LTrue)
+	}
+	th := L.GetGlobal("co").(*lua.LState)
+	var fn lua.LValue = L.GetGlobal("helper")
+	if !in.LuaFn {
+		fn = L.NewFunction(func(L *lua.LState) int {
+			if in.Fails {
+				L.RaiseError("helper failed")
+			}
+			x := L.ToInt(1)
+			L.Push(lua.LNumber(x + 1))
+			L.Push(lua.LNumber(x + 2))
+			return 2
+		})
+	}
+	_, l0 := e.dump(th)
+	var gotErr bool
+	fault := ""
+	func() {
+		defer func() {
+			if r := recover(); r != nil {
+				if _, ok := r.(*lua.ApiError); ok {
+					gotErr = true
+					return
+				}
+				fault = fmt.Sprint(r)
+			}
+		}()
+		var err error
+		switch in.Via {
+		case "callbyparam":
+			err = th.CallByParam(lua.P{Fn: fn, NRet: in.NRet, Protect: in.Protect}, lua.LNumber(20))
+		case "call":
+			th.Push(fn)
+			th.Push(lua.LNumber(20))
+			th.Call(1, in.NRet)
+		case "pcall":
+			th.Push(fn)
+			th.Push(lua.LNumber(20))
+			err = th.PCall(1, in.NRet, nil)
+		}
+		gotErr = err != nil
+	}()
+	protected := (in.Via == "callbyparam" && in.Protect) || in.Via == "pcall"
+	_, after := e.dump(th)
+	if in.Fails && !protected {
+		after = l0 // the error left the call unprotected: the list is not observable (as in runCall)
+		th.SetTop(len(l0))
+	}
+	results := []string{"(Some (VInt 21))", "(Some (VInt 22))"}
+	id := w.Add(lib.Case{Input: in, Observed: map[string]any{"err": gotErr, "after": after}, Class: class, Nontrivial: true,
+		Coq: fmt.Sprintf("CCall %s %s %s %s %s %s", lib.CoqList(l0), lib.CoqList(results), z(in.NRet), lib.CoqBool(in.Fails), lib.CoqBool(gotErr), lib.CoqList(after))})
+	if fault != "" {
+		if len(fault) > 150 {
+			fault = fault[:150]
+		}
+		w.GoFail(id, "call on an unresumed coroutine thread panicked: "+fault)
+	}
+	if in.Fails && !protected {
+		return // an error that left the thread unprotected (recovered by this Go code, not by the library): nothing is promised
+	}
+	// drop the results; the thread must still be an unstarted coroutine that takes its arguments
+	func() {
+		defer func() { recover() }()
+		th.SetTop(len(l0))
+	}()
+	var lu []string
+	top := L.GetTop()
+	if err := L.DoString(`return coroutine.status(co), coroutine.resume(co, "x", "y")`); err != nil {
+		lu = append(lu, "error")
+	} else {
+		for i := top + 1; i <= L.GetTop(); i++ {
+			lu = append(lu, L.Get(i).String())
+		}
+	}
+	want := []string{"suspended", "true", "2", "x", "y"}
+	toZ := func(ss []string) string {
+		zs := make([]int64, len(ss))
+		for i, s := range ss {
+			zs[i] = hashZ(s)
+		}
+		return lib.CoqZList(zs)
+	}
+	w.Add(lib.Case{Input: in, Observed: map[string]any{"resume": lu}, Class: class + "/resume-after", Nontrivial: true,
+		Coq: fmt.Sprintf("CObj 97 %s %s", toZ(lu), toZ(want))})
+}
+
+func genThreadCall(r *lib.Rand) ThreadCallIn {
+	return ThreadCallIn{Kind: "threadcall", Via: []string{"callbyparam", "call", "pcall"}[r.Intn(3)], LuaFn: r.Bool(),
+		NRet: r.Range(-1, 3), Protect: r.Chance(70), Fails: r.Chance(20)}
 }
